@@ -123,6 +123,13 @@ func parseTextListing(s string) ([]txtLine, error) {
 func checkListings(r *vf.Run, e *asm.Emitter, sh *shadow, when string, calls []hcall) (ok bool) {
 	hs := func() []string { return histStrings(calls) }
 	before := append([]byte(nil), e.Bytes()...)
+	// now and then an earlier listing went to a destination that failed part-way (full disk, closed
+	// pipe): listing again to a working destination must be unaffected
+	if n := len(calls) + len(before); n%3 == 0 {
+		_ = e.WriteTextTo(&failWriter{after: n % 7})
+		_ = e.WriteHexTo(&failWriter{after: (n / 7) % 5})
+		r.Cell("listing-after-failed-destination")
+	}
 	txt, err, pan := listText(e)
 	if pan != nil || err != nil {
 		r.Fail("text-listing-fails", fmt.Sprintf("WriteTextTo %s: err=%v panic=%v", when, err, pan), hs())
